@@ -155,19 +155,12 @@ func RunNewTask(opts GlobalOptions) error {
 		if err != nil {
 			return err
 		}
-		created, err := createTask(dir, opts, opts.EpicFlag, false, title, body)
-		if err != nil {
-			return err
-		}
-
 		updates := buildFlagUpdates(opts)
 		delete(updates, "title")
 		delete(updates, "epic")
-		if len(updates) > 0 {
-			agentID := opts.AgentID
-			if _, _, err := applySetUpdates(dir, opts, created.ID, updates, agentID, true); err != nil {
-				return err
-			}
+		created, err := createTaskWithUpdates(dir, opts, opts.EpicFlag, false, title, body, updates, opts.AgentID)
+		if err != nil {
+			return err
 		}
 
 		if opts.JSON {
@@ -192,19 +185,12 @@ func RunNewTask(opts GlobalOptions) error {
 		if err != nil {
 			return err
 		}
-		created, err := createTask(dir, opts, opts.EpicFlag, false, title, opts.BodyFlag)
-		if err != nil {
-			return err
-		}
-
 		updates := buildFlagUpdates(opts)
 		delete(updates, "title")
 		delete(updates, "epic")
-		if len(updates) > 0 {
-			agentID := opts.AgentID
-			if _, _, err := applySetUpdates(dir, opts, created.ID, updates, agentID, true); err != nil {
-				return err
-			}
+		created, err := createTaskWithUpdates(dir, opts, opts.EpicFlag, false, title, opts.BodyFlag, updates, opts.AgentID)
+		if err != nil {
+			return err
 		}
 
 		if opts.JSON {
@@ -236,25 +222,21 @@ func RunNewTask(opts GlobalOptions) error {
 		return err
 	}
 
-	// Create the task
-	created, err := createTask(dir, opts, input.GetEpic(), false, input.GetTitle(), input.GetBody())
-	if err != nil {
-		return err
-	}
-
-	// If state/claim were provided, apply them via set logic
+	// If state/claim/result were provided, they are applied via set logic in the
+	// same critical section as the creation
+	var updates map[string]string
 	if input.State != nil || input.Claim != nil || input.ResultPath != nil {
-		updates := input.ToKeyValueMap()
-		// Remove fields already handled by createTask
+		updates = input.ToKeyValueMap()
+		// Remove fields already handled by the creation itself
 		delete(updates, "title")
 		delete(updates, "body")
 		delete(updates, "epic")
-		if len(updates) > 0 {
-			agentID := opts.AgentID
-			if _, _, err := applySetUpdates(dir, opts, created.ID, updates, agentID, true); err != nil {
-				return err
-			}
-		}
+	}
+
+	// Create the task
+	created, err := createTaskWithUpdates(dir, opts, input.GetEpic(), false, input.GetTitle(), input.GetBody(), updates, opts.AgentID)
+	if err != nil {
+		return err
 	}
 
 	if opts.JSON {
